@@ -85,10 +85,19 @@ pub fn parse_console(text: &str) -> Result<Vec<Ev>, String> {
         let mut fields = Vec::new();
         if layer == "arp" {
             // recv/drop: sender hw, target hw, sender ip, target ip, op ; send: target hw, sender hw, target ip, sender ip, op
-            fields.push(("mac".to_string(), f[3].to_string()));
-            fields.push(("mac".to_string(), f[4].to_string()));
-            fields.push(("ip".to_string(), f[5].to_string()));
-            fields.push(("ip".to_string(), f[6].to_string()));
+            // recv/drop columns: sender hw, target hw, sender ip, target ip (the frame's own fields);
+            // send columns describe the reply and are only checked for membership
+            if verb == "send" {
+                fields.push(("mac".to_string(), f[3].to_string()));
+                fields.push(("mac".to_string(), f[4].to_string()));
+                fields.push(("ip".to_string(), f[5].to_string()));
+                fields.push(("ip".to_string(), f[6].to_string()));
+            } else {
+                fields.push(("arp_sha".to_string(), f[3].to_string()));
+                fields.push(("arp_tha".to_string(), f[4].to_string()));
+                fields.push(("arp_spa".to_string(), f[5].to_string()));
+                fields.push(("arp_tpa".to_string(), f[6].to_string()));
+            }
         } else {
             for (i, k) in CI_KEYS.iter().enumerate() {
                 fields.push((k.to_string(), f[3 + i].to_string()));
@@ -162,10 +171,21 @@ pub fn parse_logfmt(text: &str) -> Result<Vec<Ev>, String> {
         let mut fields = Vec::new();
         for (k, val) in &kv {
             if layer == "arp" {
-                if k.starts_with("mac_") {
-                    fields.push(("mac".to_string(), val.clone()));
-                } else if k.starts_with("ip_") {
-                    fields.push(("ip".to_string(), val.clone()));
+                if verb == "send" {
+                    if k.starts_with("mac_") {
+                        fields.push(("mac".to_string(), val.clone()));
+                    } else if k.starts_with("ip_") {
+                        fields.push(("ip".to_string(), val.clone()));
+                    }
+                } else {
+                    // src = sender, dst = target of the received ARP message
+                    match k.as_str() {
+                        "mac_src" => fields.push(("arp_sha".to_string(), val.clone())),
+                        "mac_dst" => fields.push(("arp_tha".to_string(), val.clone())),
+                        "ip_src" => fields.push(("arp_spa".to_string(), val.clone())),
+                        "ip_dst" => fields.push(("arp_tpa".to_string(), val.clone())),
+                        _ => {}
+                    }
                 }
             } else if CI_KEYS.contains(&k.as_str()) {
                 fields.push((k.clone(), val.clone()));
@@ -303,6 +323,17 @@ pub fn judge_events(cfg: &Cfg, f: &[u8], evs: &[Ev], replied: Option<&Vec<u8>>) 
                 continue;
             }
             match k.as_str() {
+                "arp_sha" | "arp_tha" | "arp_spa" | "arp_tpa" => {
+                    if let Some(a) = &arp {
+                        let want = match k.as_str() {
+                            "arp_sha" => mac_s(&a.sha),
+                            "arp_tha" => mac_s(&a.tha),
+                            "arp_spa" => std::net::Ipv4Addr::from(a.spa).to_string(),
+                            _ => std::net::Ipv4Addr::from(a.tpa).to_string(),
+                        };
+                        vensure!(*val == want, "{} {} line prints {} = {} but the ARP message's is {}: {}", e.layer, e.verb, k, val, want, ctx());
+                    }
+                }
                 "mac" => vensure!(macs.contains(val), "{} {} line prints MAC {} which is not in the frame: {}", e.layer, e.verb, val, ctx()),
                 "ip" => vensure!(ips.contains(val), "{} {} line prints IP {} which is not in the frame: {}", e.layer, e.verb, val, ctx()),
                 "mac_src" => vensure!(*val == mac_s(&v.src), "{} {} line prints source MAC {} but the frame's is {}: {}", e.layer, e.verb, val, mac_s(&v.src), ctx()),
